@@ -313,18 +313,23 @@ func runTLC(t testing.TB, res *vh.Result, src string, hist []Step) []map[string]
 // randomUniverse draws a universe larger than the model-checked ones.
 func randomUniverse(r *rand.Rand) (Universe, []string) {
 	names := []string{"A", "B", "C"}
-	u := Universe{Deps: map[string]ADep{}, Cap: 2 + r.Intn(5), Delta: 2 + r.Intn(4)}
-	for _, n := range names {
-		d := ADep{Amt: int64(4 + r.Intn(11)), Till: 5 + r.Intn(8)}
-		if r.Intn(5) == 0 {
-			d = ADep{}
-		}
-		u.Deps[n] = d
-	}
+	u := Universe{Deps: map[string]ADep{}, Cap: 2 + r.Intn(4), Delta: 2 + r.Intn(4)}
 	nm := 3 + r.Intn(5)
 	vubs := make([]int, nm+1)
+	maxVub := 0
 	for m := 1; m <= nm; m++ {
 		vubs[m] = 2 + r.Intn(8)
+		maxVub = max(maxVub, vubs[m])
+	}
+	for _, n := range names {
+		d := ADep{Amt: int64(4 + r.Intn(11)), Till: maxVub + 1 + r.Intn(3)}
+		switch r.Intn(8) {
+		case 0:
+			d = ADep{} // no deposit (a top-up may create one later)
+		case 1, 2:
+			d.Till = 3 + r.Intn(6) // unlocks while some requests are still valid
+		}
+		u.Deps[n] = d
 	}
 	n := 6 + r.Intn(8)
 	for i := 0; i < n; i++ {
@@ -367,7 +372,7 @@ func runRandom(t testing.TB, res *vh.Result, src string, seed int64) []map[strin
 			mains = append(mains, q.Main)
 		}
 	}
-	nops := 20 + rd.Intn(25)
+	nops := 25 + rd.Intn(30)
 	for i := 0; i < nops && !r.dead && w.rel() < 11; i++ {
 		k := rd.Intn(100)
 		switch {
@@ -391,13 +396,19 @@ func runRandom(t testing.TB, res *vh.Result, src string, seed int64) []map[strin
 				r.blockOf("empty", 0, "", 0)
 			}
 		case k < 84:
-			id := 1 + rd.Intn(n)
-			if w.bc.VerifyTx(w.completed(w.reqs[id-1].fallback)) == nil {
-				if _, err := r.blockOf("fallback", id, "", 0); err != nil {
-					res.Inc("notarypool_random_blocks_refused", 1)
+			// a completed fallback the chain accepts now (pooled or not), if there is one
+			done := false
+			for _, j := range rd.Perm(n) {
+				if w.bc.VerifyTx(w.completed(w.reqs[j].fallback)) == nil {
+					if _, err := r.blockOf("fallback", j+1, "", 0); err != nil {
+						res.Inc("notarypool_random_blocks_refused", 1)
+					}
+					done = true
+					break
 				}
-			} else {
-				r.blockOf("empty", 0, "", 0)
+			}
+			if !done {
+				r.submit(1+rd.Intn(n), false)
 			}
 		case k < 90:
 			m := mains[rd.Intn(len(mains))]
